@@ -24,6 +24,8 @@ type IngestCfg struct {
 	Workers   int    `json:"workers"`  // value of -n; effective = max(1,n-2)
 	SchedSeed uint64 `json:"sched_seed"`
 	Policy    string `json:"policy,omitempty"`
+	// FsizeLimit > 0: while this ingest runs no file may grow beyond that many bytes (spill files: disk full / quota)
+	FsizeLimit uint64 `json:"fsize_limit,omitempty"`
 }
 
 type C01Plan struct {
@@ -65,6 +67,7 @@ type IngestRun struct {
 	Sched     *Sched
 	SpillSeen int
 	Store     *Store
+	FsizeArmed bool
 }
 
 // RunIngest executes ingest.IngestTable inside a bubble on store st.
@@ -80,20 +83,27 @@ func RunIngest(t *testing.T, st *Store, text []byte, pk []string, cfg IngestCfg)
 	if runSize == 0 {
 		runSize = 1 << 40
 	}
-	run.Out = Bubble(t, 0, func(mainDone *bool) {
-		done := make(chan struct{})
-		go func() {
-			defer close(done)
-			s, err := sorter.NewSorter(sorter.WithRunSize(runSize), sorter.WithDelimiter(delim))
-			if err != nil {
-				run.Err = err
-				return
-			}
-			run.Sum, run.Err = ingest.IngestTable(st, s, io.NopCloser(bytes.NewReader(text)), pk, logr.Discard(), ingest.WithNumWorkers(cfg.Workers))
-			*mainDone = true
-		}()
-		sc.Run(done)
-	})
+	body := func() {
+		run.Out = Bubble(t, 0, func(mainDone *bool) {
+			done := make(chan struct{})
+			go func() {
+				defer close(done)
+				s, err := sorter.NewSorter(sorter.WithRunSize(runSize), sorter.WithDelimiter(delim))
+				if err != nil {
+					run.Err = err
+					return
+				}
+				run.Sum, run.Err = ingest.IngestTable(st, s, io.NopCloser(bytes.NewReader(text)), pk, logr.Discard(), ingest.WithNumWorkers(cfg.Workers))
+				*mainDone = true
+			}()
+			sc.Run(done)
+		})
+	}
+	if cfg.FsizeLimit > 0 {
+		run.FsizeArmed = withFsizeLimit(cfg.FsizeLimit, body)
+	} else {
+		body()
+	}
 	return run
 }
 
